@@ -234,7 +234,7 @@ def zero_mask(zspecs, attrs, shape):
 @st.composite
 def est_cases(draw, min_attrs=2, max_attrs=4, max_size=4, cap=256, min_m=0, max_m=5, zeros=False, iters=(1, 2, 3, 10, 50),
               solvers=('MD', 'RDA', 'IG'), totals=(1.0, 10, 1000.0, 37.5, None, None), kinds=None, allow_empty_zero=False, min_size=1, long_cycle=True,
-              tiny_noise=False):
+              tiny_noise=False, tiny_units=False):
     dom = draw(gen.domains(min_attrs, max_attrs, min_size, max_size, cap=cap))
     attrs, shape = dom['attrs'], dom['shape']
     meas = draw(measurement_specs(attrs, shape, min_m, max_m, max_proj=3, max_cells=64, kinds=kinds, tiny_noise=tiny_noise)) if max_m > 0 else []
@@ -254,7 +254,7 @@ def est_cases(draw, min_attrs=2, max_attrs=4, max_size=4, cap=256, min_m=0, max_
         case['elim_perm'] = list(draw(st.permutations(attrs)))
     if draw(st.integers(0, 7)) == 0 and case['total'] is not None:
         # the same problem in other units: total, answers and noise scales multiplied by 1e5 (or, rarely, by 1e-8)
-        u = draw(st.sampled_from([1e5, 1e5, 1e5, 1e-8]))
+        u = draw(st.sampled_from([1e5, 1e5, 1e5, 1e-8])) if tiny_units else 1e5
         case['total'] = float(case['total']) * u
         case['meas'] = [dict(m, noise=m['noise'] * u) for m in case['meas']]
         case['units'] = u
